@@ -155,61 +155,140 @@ def run(v, tier, seed, g):
     v.oblige(bad_num == 0)
     if len(v.samples) < 4:
         v.samples.extend([{"function": c[0], "a": str(c[1]), "b": str(c[2]), "result": str(c[3])} for c in cases[137:140]])
-    # ---- optimiser: kernels generated with the passes disabled vs enabled, exact rationals in Coq ---
-    n_cases = 10 if tier == "quick" else 120
+    # ---- optimiser: kernels generated with the passes disabled vs enabled -------------------------
+    # Proof per kernel pair: both kernels are executed SYMBOLICALLY (LN.exec over the free term algebra,
+    # Sym.v) and their outputs compared as polynomials over the inputs (SymEq.kernels_equiv, by vm_compute);
+    # SymEq.kernels_equiv_sound turns `true` into: same tensor for ALL inputs.  Kernels with data-dependent
+    # control flow (conditionals) are compared by exact rational execution on random inputs instead.
+    n_cases = 6 if tier == "quick" else 120
     kc = [c for c in corpus.PINNED if c["id"] in ("stiff_tri_p2_coef", "mass_quad_q2_nonaffine", "vector_tri_elasticity",
                                                   "mixed_tri_th", "int_facet_tri_jump", "two_rules_tri", "tensor_const_tri",
-                                                  "stiff_hex_q1", "subdomains_tri", "rhs_tet_p2")]
+                                                  "stiff_hex_q1", "subdomains_tri", "rhs_tet_p2", "ext_facet_tri_normal", "int_facet_quad",
+                                                  "n1curl_tet", "rt_tri_divdiv", "mathfun_tri", "conditional_tri")]
     kc += corpus.random_cases(seed, n_cases)
     res_on = common.run_cases(kc)
     res_off = common.run_cases(kc, disable_opt=True)
     common.clean_gen("C17o_")
+    common.clean_gen("C17s_")
     files = {}
+    sfiles = {}
     nrng = np.random.default_rng(seed)
     changed = 0
+    import itertools
     for ron, roff in zip(res_on, res_off):
-        if ron["status"] != "ok" or roff["status"] != "ok" or ron.get("scalar_type") != "float64":
+        if ron["status"] != "ok" or roff["status"] != "ok":
             continue
         for kon, koff in zip(ron["kernels"], roff["kernels"]):
             if "body" not in kon or "body" not in koff or kon["name"] != koff["name"]:
                 continue
-            if not execcorr.calls_in(kon["body"]) <= {"abs"}:
-                continue
-            if execcorr.flops_estimate(kon["body"]) > 6000:
-                continue
             if kon["body"] != koff["body"]:
                 changed += 1
             con = kon["contract"]
-            d = inputs.make(con, nrng, "float64")
-            path = os.path.join(common.GEN, f"C17o_{len(files)}.v")
+            flops = execcorr.flops_estimate(kon["body"])
+            if flops <= (15000 if tier == "quick" else 400000):
+                # all admissible entity indices x permutation codes (capped)
+                ents = list(itertools.product(range(con["e_range"][0], max(con["e_range"][1], 1)), repeat=con["ne"])) if con["ne"] else [()]
+                perms = list(itertools.product(range(con["p_range"][0], max(con["p_range"][1], 1)), repeat=con["np"])) if con["np"] else [()]
+                combos = list(itertools.product(ents, perms))
+                cap = 8 if tier == "quick" else 200
+                exhaustive = len(combos) <= cap
+                if not exhaustive:
+                    idx = nrng.choice(len(combos), size=cap, replace=False)
+                    combos = [combos[i] for i in sorted(idx)]
+                path = os.path.join(common.GEN, f"C17s_{len(sfiles)}.v")
+                t = ("From Coq Require Import ZArith List String Uint63.\nFrom FFCX Require Import LN Enc Sym SymEq.\n"
+                     "Import ListNotations.\nOpen Scope string_scope.\n")
+                t += "Definition k_on : list stmt :=\n" + ffx.coq_body(kon["body"]) + ".\n"
+                t += "Definition k_off : list stmt :=\n" + ffx.coq_body(koff["body"]) + ".\n"
+                t += "Definition combos : list (list Z * list Z) := [" + "; ".join(f"({execcorr.zl(list(e))}, {execcorr.zl(list(p))})" for e, p in combos) + "].\n"
+                t += (f"Definition all_equiv : bool := forallb (fun ep => kernels_equiv (sym_inputs {con['w_total']} {con['nc']} {con['nx']} (fst ep) (snd ep)) k_on k_off (sym_A {con['nA']}%nat)) combos.\n")
+                t += "Eval vm_compute in (forallb nobr k_on && forallb nobr k_off)%%bool :: map (fun ep => kernels_equiv (sym_inputs %d %d %d (fst ep) (snd ep)) k_on k_off (sym_A %d%%nat)) combos.\n" % (con['w_total'], con['nc'], con['nx'], con['nA'])
+                open(path, "w").write(t)
+                sfiles[path] = (ron, kon, koff, exhaustive, combos)
+    sout = common.coqc_many(list(sfiles), timeout=240 if tier == "quick" else 1200)
+    n_sym, n_sym_exh, need_numeric = 0, 0, []
+    for path, (ron, kon, koff, exhaustive, combos) in sfiles.items():
+        rc, so, se = sout[path]
+        mm = re.search(r"=\s*\[(.*?)\]\s*:\s*list bool", so, re.S) if rc == 0 else None
+        b = [x.strip() == "true" for x in mm.group(1).split(";")] if mm else None
+        ncombo = len(combos)
+        if b and len(b) == 1 + ncombo and b[0] and not all(b[1:]):
+            # branch-free kernels whose symbolic outputs differ: the passes changed the tensor (or the comparison is
+            # too weak): search a concrete input with the first differing entity/permutation combination
+            ebad, pbad = combos[b[1:].index(False)]
+            need_numeric.append((ron, kon, koff, "symbolic outputs differ", (list(ebad), list(pbad))))
+            continue
+        if b and len(b) == 1 + ncombo and all(b):
+            n_sym += 1
+            n_sym_exh += 1 if exhaustive else 0
+            v.oblige(True)
+            if len(v.samples) < 6 and kon["body"] != koff["body"]:
+                v.samples.append({"optimiser": "symbolic equivalence proved", "case": ron["id"], "kernel": kon["name"][:40], "entity_perm_combinations": ncombo, "exhaustive": exhaustive})
+        else:
+            need_numeric.append((ron, kon, koff, "data-dependent control flow (not in the branch-free fragment)" if b and not b[0] else ("timeout" if se == "TIMEOUT" else se[-120:]), None))
+        for ext in (".vo", ".vok", ".vos", ".glob"):
+            try:
+                os.remove(path[:-2] + ext)
+            except OSError:
+                pass
+    # exact rational execution on random inputs for the rest (search engine / fallback)
+    for ron, kon, koff, why, ep in need_numeric:
+        numeric_ok = ron.get("scalar_type") == "float64" and execcorr.calls_in(kon["body"]) <= {"abs"} and execcorr.flops_estimate(kon["body"]) <= 6000
+        if not numeric_ok:
+            if ep is not None:
+                v.oblige(False)
+                found = c_search(ron, kon["name"], con_of(kon), ep, nrng)
+                if found:
+                    v.violation(f"optimizer:{ron['id']}", f"kernel {kon['name']} computes a different tensor with the optimiser passes enabled than disabled (compiled C, entity indices {ep[0]}, permutation codes {ep[1]}, relative difference {found['relative_difference']:.3g})",
+                                {"case": ron["id"], "code": ron["code"], "kernel": kon["name"], **found})
+                    continue
+                v.violation(f"optimizer-symbolic:{ron['id']}", f"kernel {kon['name']} with the optimiser passes enabled is not symbolically equal to the kernel without them (entity/permutation {ep})",
+                            {"case": ron["id"], "code": ron["code"], "kernel": kon["name"], "entity_perm": ep, "broken_obligation": "SymEq.kernels_equiv"}, no_input=True)
+            continue
+        con = kon["contract"]
+        d = inputs.make(con, nrng, "float64")
+        if ep is not None:
+            d["e"][:len(ep[0])] = ep[0]
+            d["p"][:len(ep[1])] = ep[1]
+        path = os.path.join(common.GEN, f"C17o_{len(files)}.v")
 
-            def ql(a):
-                return "[" + "; ".join("VF (q_of_lit (%d) (%d))" % ffx.dyadic(float(x)) for x in a) + "]"
-            t = ("From Coq Require Import ZArith QArith List String Uint63.\nFrom FFCX Require Import LN Enc Num.\n"
-                 "Import ListNotations.\nOpen Scope string_scope.\n")
-            t += "Definition k_on : list stmt :=\n" + ffx.coq_body(kon["body"]) + ".\n"
-            t += "Definition k_off : list stmt :=\n" + ffx.coq_body(koff["body"]) + ".\n"
-            t += (f"Definition inp := @inputs_of_lists Q {ql(d['w'])} {ql(d['c'])} {ql(d['x'])} "
-                  f"{execcorr.zl(d['e'][:con['ne']])} {execcorr.zl(d['p'][:con['np']])}.\n")
-            t += f"Definition A0 : list q_val := {ql(d['A'])}.\n"
-            t += "Eval vm_compute in q_same (q_run inp k_on A0) (q_run inp k_off A0).\n"
-            open(path, "w").write(t)
-            files[path] = (ron, kon)
+        def ql(a):
+            return "[" + "; ".join("VF (q_of_lit (%d) (%d))" % ffx.dyadic(float(x)) for x in a) + "]"
+        t = ("From Coq Require Import ZArith QArith List String Uint63.\nFrom FFCX Require Import LN Enc Num.\n"
+             "Import ListNotations.\nOpen Scope string_scope.\n")
+        t += "Definition k_on : list stmt :=\n" + ffx.coq_body(kon["body"]) + ".\n"
+        t += "Definition k_off : list stmt :=\n" + ffx.coq_body(koff["body"]) + ".\n"
+        t += (f"Definition inp := @inputs_of_lists Q {ql(d['w'])} {ql(d['c'])} {ql(d['x'])} "
+              f"{execcorr.zl(d['e'][:con['ne']])} {execcorr.zl(d['p'][:con['np']])}.\n")
+        t += f"Definition A0 : list q_val := {ql(d['A'])}.\n"
+        t += "Eval vm_compute in q_same (q_run inp k_on A0) (q_run inp k_off A0).\n"
+        open(path, "w").write(t)
+        files[path] = (ron, kon, why, ep, d)
     out = common.coqc_many(list(files), timeout=150)
     n_same = 0
     n_timeout = 0
-    for path, (ron, kon) in files.items():
+    for path, (ron, kon, why, ep, d) in files.items():
         rc, so, se = out[path]
         if se == "TIMEOUT":
             n_timeout += 1   # exact rational execution too slow for this kernel: not counted
             continue
         b = common.parse_bools(so)
         ok = rc == 0 and b == [True]
+        if ok and ep is not None:
+            # symbolic outputs differ but this input does not show it: still a broken obligation
+            v.oblige(False)
+            v.violation(f"optimizer-symbolic:{ron['id']}", f"kernel {kon['name']} with the optimiser passes enabled is not symbolically equal to the kernel without them (entity/permutation {ep}); the random input tried gives equal tensors",
+                        {"case": ron["id"], "code": ron["code"], "kernel": kon["name"], "entity_perm": ep, "broken_obligation": "SymEq.kernels_equiv"}, no_input=True)
+            continue
         v.oblige(ok)
         if ok:
             n_same += 1
+        elif b == [False] and ep is not None:
+            v.violation(f"optimizer:{ron['id']}", f"kernel {kon['name']} computes a different tensor with the optimiser passes enabled than disabled (entity indices {ep[0]}, permutation codes {ep[1]}; exact rational arithmetic)",
+                        {"case": ron["id"], "code": ron["code"], "kernel": kon["name"], "entity_local_index": ep[0], "quadrature_permutation": ep[1],
+                         "w": [float(x) for x in d["w"][:16]], "coordinate_dofs": [float(x) for x in d["x"][:18]]})
         else:
-            v.violation(f"optimizer:{ron['id']}", f"kernel {kon['name']} computes a different tensor with the optimiser passes enabled than disabled (exact rational arithmetic)" if b == [False]
+            v.violation(f"optimizer:{ron['id']}", f"kernel {kon['name']} computes a different tensor with the optimiser passes enabled than disabled (exact rational arithmetic; symbolic comparison: {why})" if b == [False]
                         else f"optimised/unoptimised kernels of {ron['id']} could not be executed: {se[-200:]}",
                         {"case": ron["id"], "code": ron["code"], "kernel": kon["name"]}, no_input=(b != [False]))
         for ext in (".vo", ".vok", ".vos", ".glob"):
@@ -224,19 +303,52 @@ def run(v, tier, seed, g):
         v.violation(f"exec-vs-gcc:{d['case']}", f"LN.exec and the compiled C disagree on kernel {d['kernel']}: {d['why']}",
                     d, no_input=False)
     v.notes["exec_vs_gcc"] = {k: xc[k] for k in ("compared", "agree", "skipped", "kernels")}
-    v.notes["optimizer"] = {"kernel_pairs_executed_exactly": len(files), "equal": n_same, "pairs_where_passes_changed_the_ast": changed, "skipped_timeout": n_timeout}
+    v.notes["optimizer"] = {"kernel_pairs": len(sfiles), "proved_equivalent_symbolically": n_sym, "of_which_all_entity_perm_combinations": n_sym_exh,
+                            "fallback_exact_rational_runs": len(files), "fallback_equal": n_same, "pairs_where_passes_changed_the_ast": changed, "skipped_timeout": n_timeout}
     if not g["ok"] and not v.violations:
         v.violation("gate", "proof obligations no longer check: " + "; ".join(g["broken"]), {"broken": g["broken"]}, no_input=True)
     cov = {
         "checker_cmd": f"./check C17 --tier {tier}",
         "trusted_base": ["Coq kernel + VM", "tr_smart.py (translation of LExpr.__neg__..__rdiv__, is_*_lexpr, float_product)",
                          "exact arithmetic (commutative ring under of_Z): IEEE corner cases 0*inf, -0, 0/0 excluded",
-                         "optimiser passes: NOT proved; compared per kernel by exact rational execution of the kernels generated with and without the passes"],
+                         "optimiser passes: per kernel pair (passes on/off) proved equivalent for all inputs by symbolic execution + polynomial normal forms (Sym.v, SymEq.v: Ring_polynom over Z, atoms compared syntactically); kernels with conditionals fall back to exact rational execution on random inputs"],
         "evaluations": len(allc) + len(files) + xc["compared"], "distinct_nontrivial": len(allc),
         "rule": "overloads: every operand kind pair (%d kinds) x 8 binary overloads + neg + float_product lists; optimiser: kernels on/off; exec vs gcc" % len(ops),
         "axioms_under_property_theorems": g.get("axioms", []),
     }
-    return v.finish("proof", cov, ["optimiser half is correspondence only (partial)"])
+    return v.finish("proof", cov, ["optimiser half: proved per sampled kernel pair, not for the passes as functions on all ASTs; kernels with conditionals only by execution"])
+
+
+def con_of(k):
+    return k["contract"]
+
+
+def c_search(ron, name, con, ep, nrng):
+    """compile the case with and without the optimiser passes and run both C kernels on random inputs with
+    the entity/permutation values for which the symbolic outputs differ."""
+    import runc
+    case = [{"id": ron["id"], "code": ron["code"]}]
+    a = common.run_cases(case, want_text=True)[0]
+    b = common.run_cases(case, want_text=True, disable_opt=True)[0]
+    if a["status"] != "ok" or b["status"] != "ok":
+        return None
+    ba, bb = runc.CBuild(a["header"], a["source"]), runc.CBuild(b["header"], b["source"])
+    if not (ba.ok and bb.ok):
+        return None
+    for trial in range(5):
+        d = inputs.make(con, nrng, a.get("scalar_type", "float64"))
+        d["e"][:len(ep[0])] = ep[0]
+        d["p"][:len(ep[1])] = ep[1]
+        A1, A2 = d["A"].copy(), d["A"].copy()
+        runc.call_kernel(ba.kernel(name), A1, d["w"], d["c"], d["x"], d["e"], d["p"])
+        runc.call_kernel(bb.kernel(name), A2, d["w"], d["c"], d["x"], d["e"], d["p"])
+        scale = max(float(np.max(np.abs(A2))), 1e-3)
+        rel = float(np.max(np.abs(A1 - A2))) / scale
+        if rel > 1e-9:
+            return {"entity_local_index": ep[0], "quadrature_permutation": ep[1], "relative_difference": rel,
+                    "A_with_passes": [float(np.real(x)) for x in A1[:12]], "A_without_passes": [float(np.real(x)) for x in A2[:12]],
+                    "w": [float(np.real(x)) for x in d["w"][:12]], "coordinate_dofs": [float(x) for x in d["x"][:18]]}
+    return None
 
 
 def replay(v, payload):
